@@ -32,8 +32,8 @@ Local Open Scope N_scope.
 (* ---- syntax ------------------------------------------------------------------------------------ *)
 Inductive lvar := VE | VS | VB | VK | VV.                   (* loop / closure variables e, s, b, k, v *)
 Inductive ivar := IN | IL | IEntry.                         (* n, l, mapEntrySize *)
-(* (RF/RV rather than RField/RVar: Model/Reflect.v already has constructors of those names and all models are
-   extracted into one OCaml module) *)
+(* (RF/RV and SMapFn rather than RField/RVar and SMap: Model/Reflect.v and Model/GenTemplates.v already have constructors of
+   those names and all models are extracted into one OCaml module) *)
 Inductive sref :=
 | RF (i : nat)     (* x.<GoName of field i>; inside the case clause of member i: the wrapper's payload field *)
 | RV (x : lvar).
@@ -62,7 +62,7 @@ Inductive stmt :=
 | SAdd (v : ivar) (e : sexpr)                         (* v += e *)
 | SIf (c : cond) (body : list stmt)
 | SFor (x : lvar) (r : sref) (body : list stmt)       (* for _, x := range r { body } *)
-| SMap (i : nat) (body : list stmt)                   (* SiZeMaP := func(k K, v V) { body }; called once per entry of map field i *)
+| SMapFn (i : nat) (body : list stmt)                   (* SiZeMaP := func(k K, v V) { body }; called once per entry of map field i *)
 | SSwitch (oneof : nat) (cases : list (nat * list stmt)).
       (* switch x := x.<Oneof>.(type) { case *<wrapper of field j>: if x == nil { break }; body … } *)
 
@@ -114,7 +114,7 @@ Fixpoint stmt_eqb (s t : stmt) {struct s} : bool :=
   | SAdd v e, SAdd w f => ivar_eqb v w && sexpr_eqb e f
   | SIf c x, SIf d y => cond_eqb c d && peq x y
   | SFor x r p, SFor y q p' => lvar_eqb x y && sref_eqb r q && peq p p'
-  | SMap i p, SMap j p' => Nat.eqb i j && peq p p'
+  | SMapFn i p, SMapFn j p' => Nat.eqb i j && peq p p'
   | SSwitch o cs, SSwitch o' cs' =>
     Nat.eqb o o' &&
     (fix ceq (cs : list (nat * list stmt)) (cs' : list (nat * list stmt)) {struct cs} : bool :=
@@ -291,7 +291,7 @@ Section Run.
            end) (list_of v) st
       | _ => None
       end
-    | SMap i body =>
+    | SMapFn i body =>
       match eval_ref (RF i) en with
       | Some (RTMap kk t, v) =>
         (fix iter (kvs : list (val * val)) (st : state) {struct kvs} : option state :=
@@ -444,7 +444,7 @@ Definition canon_field (i : nat) (f : field) (oneof : bool) : list stmt :=
   let repeated := match f_shape f with Rep _ | MapOf _ => true | _ => false end in
   let nullable := match f_ty f with TMsg _ => true | TScalar _ => false end in
   let inner := match f_shape f with
-               | MapOf kk => [SMap i (canon_map_body f kk)]
+               | MapOf kk => [SMapFn i (canon_map_body f kk)]
                | _ => canon_inner i f oneof
                end in
   if oneof then inner
